@@ -94,8 +94,7 @@ Record newdef := mkDef {
 Definition defined (d : newdef) (p : proxy) : bool := mem N.eqb (p_name p) (d_new d).
 Definition orphan (d : newdef) (p : proxy) : bool :=
   mem N.eqb (p_name p) (d_old d) && negb (mem N.eqb (p_name p) (d_new d)).
-Definition removable (p : proxy) : bool :=
-  N.eqb (p_status p) st_waiting || p_held p || p_queued p.
+Definition removable (p : proxy) : bool := N.eqb (p_status p) st_waiting.
 Definition started (p : proxy) : bool := negb (N.eqb (p_status p) st_waiting).
 
 Definition newpre_of (d : newdef) (p : proxy) : list (list key) :=
